@@ -95,7 +95,6 @@ Qed.
 
 Section Create.
 Variable hs : nat.
-Variable H : bytes -> bytes.
 
 Definition lastb (P : list entry) : Z :=
   match rev P with [] => (-1)%Z | e :: _ => Z.of_nat (first_byte (e_hash e)) end.
@@ -176,11 +175,11 @@ Proof.
     { assert (Sx : sorted_tbl P).
       { unfold sorted_tbl in *. clear - Hsrt. induction P as [|y P IH]; [constructor|].
         cbn in Hsrt. inversion Hsrt; subst. constructor; [now apply IH|].
-        rewrite Forall_forall in *. intros z Hz. apply H2. apply in_or_app. now left. }
-      assert (P = rev r ++ [x]) by (rewrite <- (rev_involutive P), E; reflexivity).
+        rewrite Forall_forall in *. intros z Hz. match goal with K : forall z, In z _ -> hlt y z |- _ => apply K end. apply in_or_app. now left. }
+      assert (HP : P = rev r ++ [x]) by (rewrite <- (rev_involutive P), E; reflexivity).
       destruct Hr as [<-|Hr]; [lia|].
-      rewrite H0 in Sx. apply (sorted_le_last (rev r) x Sx).
-      - intros y Hy. apply Hne. apply in_or_app. left. now rewrite H0.
+      rewrite HP in Sx. apply (sorted_le_last (rev r) x Sx).
+      - intros y Hy. apply Hne. apply in_or_app. left. now rewrite HP.
       - now apply in_rev in Hr. }
     pose proof (first_of_byte x ltac:(specialize (Hle x Hx); lia)). lia. }
   assert (Hnb : n_big P <= N.of_nat (List.length P)).
@@ -309,13 +308,13 @@ Proof.
     - symmetry. apply count_le_all. intros e He.
       rewrite I1 in E. unfold lastb in E. destruct (rev tbl) as [|x r] eqn:Er.
       + apply in_rev in He. rewrite Er in He. contradiction.
-      + assert (tbl = rev r ++ [x]) by (rewrite <- (rev_involutive tbl), Er; reflexivity).
+      + assert (HT : tbl = rev r ++ [x]) by (rewrite <- (rev_involutive tbl), Er; reflexivity).
         assert (Hx : In x tbl) by (apply in_rev; rewrite Er; now left).
         assert (first_of e <= first_of x).
         { apply in_rev in He. rewrite Er in He. destruct He as [<-|He]; [lia|].
           apply (sorted_le_last (rev r) x).
-          - rewrite <- H0. apply (wf_sorted _ _ WF).
-          - intros y Hy. apply Hne. now rewrite H0.
+          - rewrite <- HT. apply (wf_sorted _ _ WF).
+          - intros y Hy. apply Hne. now rewrite HT.
           - now apply in_rev in He. }
         pose proof (first_of_byte x (Hb x Hx)). lia.
     - apply I2. lia. }
